@@ -379,7 +379,21 @@ RowData(row, it, banks, out, base) ==
 \* the item's source text on ONE row: an item written over several lines is shown with its
 \* line breaks as blanks (a line break would end the row / the comment it is shown in)
 OneLine(cs) == [k \in 1..Len(cs) |-> IF cs[k] \in {NLc, 13} THEN SPc ELSE cs[k]]
-RowSource(row, it, files) == row.src = OneLine(ItemText(files[it.file].text, it.at, it.src))
+\* a data element begins where it begins: what stands in front of its first character (blanks
+\* aside) is the comma of the element before it or the directive word (`#d8', `#d') - not a
+\* parenthesis or an operand that belongs to the element itself
+RECURSIVE PrevNonBlankAt(_, _)
+PrevNonBlankAt(text, p) == IF p < 1 THEN 0 ELSE IF text[p] \in {SPc, 9, 13, NLc} THEN PrevNonBlankAt(text, p - 1) ELSE p
+RECURSIVE SkipDigitsBack(_, _)
+SkipDigitsBack(text, p) == IF p >= 1 /\ text[p] >= 48 /\ text[p] <= 57 THEN SkipDigitsBack(text, p - 1) ELSE p
+ElementStart(text, at) ==
+    LET p == PrevNonBlankAt(text, at)
+        q == IF p = 0 THEN 0 ELSE SkipDigitsBack(text, p)       \* in front of the digits of `#d16'
+    IN p > 0 /\ (text[p] = COMMAc \/ (q >= 2 /\ text[q] \in {100, 68} /\ text[q - 1] = 35))
+
+RowSource(row, it, files) ==
+    /\ row.src = OneLine(ItemText(files[it.file].text, it.at, it.src))
+    /\ (it.src = "data" => ElementStart(files[it.file].text, it.at))
 
 \* the rows correspond one to one, in output order, to the emitted items
 RowsAgree(rows, items, banks, out, files, base, group) ==
